@@ -37,7 +37,8 @@ P('C01', ['getEntries', 'msg.append_entries', 'applyLogEntries', 'doApplyCommand
   'every local rule but breaks the protocol in a new way is outside this technique. Deterministic replicated methods assumed (A-USERCODE).',
   assumptions=[A_RAFT, 'R_AE: entries of a message are contiguous from prevLogIdx+1 (proved at the sender as G_AE)',
                'A-DUMP: the two entries of a dump are contiguous', 'A-USERCODE', 'A-CMD: log commands are non-empty',
-               'A-PROTO-4: nextIndex <= first journal index only for a compacted journal'])
+               'A-PROTO-4: nextIndex <= first journal index only for a compacted journal'],
+  lemmas=['FRAME-C01', 'CALLERS-C01'])
 
 P('C02', ['replicated.newFunc', 'FastQueue', 'applyCommand', 'checkCommandsToApply', 'msg.apply_command', 'msg.apply_command_response', 'applyLogEntries',
           'tick.election', 'msg.append_entries'],
@@ -59,7 +60,7 @@ P('C03', ['msg.request_vote', 'msg.response_vote', 'tick.election', 'tick.leader
   'leader never rewrites its log. Lemma L-ELECT (two majorities of write-once votes intersect) is discharged for N=1..5.',
   'Leader completeness (second sentence of the statement) rests on R2 (up-to-date check) + R9 + ' + A_RAFT + '. Votes are not '
   'de-duplicated per voter in the code; with at-most-once delivery of each response (T-TRANSPORT) this is sound, and the assumption is listed.',
-  lemmas=['L-ELECT', 'X-ENGINE'], assumptions=[A_RAFT, 'T-TRANSPORT: each response_vote is delivered at most once'])
+  lemmas=['L-ELECT', 'X-ENGINE', 'FRAME-C03', 'CALLERS-C03'], assumptions=[A_RAFT, 'T-TRANSPORT: each response_vote is delivered at most once'])
 
 P('C04', ['getEntries', 'tick.leader', 'tick.not-leader', 'msg.next_node_idx', 'msg.append_entries', 'applyLogEntries', 'loadDumpFile',
           'msg.response_vote', 'tick.election', 'doChangeCluster'],
@@ -85,7 +86,7 @@ P('C10', ['changeCluster', 'doChangeCluster', 'checkCommandsToApply.membership',
   'the bookkeeping invariant I9, whose preservation by the leader\'s append is proved; exact effect of applying/reversing a request on '
   'voters, nextIndex, matchIndex, lastResponse and the transport (O10.2); member set restored from a dump (O9.4).',
   'Follower-side apply-on-append / rollback-on-truncate loops (O10.3) are loop contracts in unit msg.append_entries.membership. Safety of single-server changes across nodes is ' + A_RAFT + ' extended to membership.',
-  assumptions=[A_RAFT, 'I9 as quantified hypothesis', 'observers never carry member addresses (O14.1)'])
+  assumptions=[A_RAFT, 'I9 as quantified hypothesis', 'observers never carry member addresses (O14.1)'], lemmas=['FRAME-C10', 'CALLERS-C10'])
 
 P('C11', ['getEntries', 'replicated.newFunc', 'sendAppendEntries', 'msg.append_entries', 'doApplyCommand', 'applyCommand', 'tick.leader'],
   'Batching (non-empty contiguous batch, O11.2), the big-entry chunk loop as a loop contract (first chunk start, finish exactly on the '
@@ -117,7 +118,7 @@ P('C17', ['replicated.newFunc', 'applyLogEntries', 'doApplyCommand', 'loadDumpFi
   'rebuilt for the restored version after a dump load (O17.6), as contracts on the real functions.',
   'Method-id enumeration and the name-table construction use reflection (dir/getattr, X4): they are checked by a bounded native '
   'stand-in (bounded/c17_reflection.py, labelled bounded in the evidence and not counted among the proof obligations), not proved.',
-  assumptions=['X4: reflection abstracted'], lemmas=['B-REFLECT', 'FRAME-VERSION-IN-DUMP'],
+  assumptions=['X4: reflection abstracted'], lemmas=['B-REFLECT', 'FRAME-VERSION-IN-DUMP', 'FRAME-C17', 'CALLERS-C17'],
   bounded=['O17.1/O17.2/O17.7 (id enumeration in __init__, name table in __onSetCodeVersion, dispatch through the wrapper): exhaustive native '
            'enumeration over 160 generated old/new class pairs (<=2 object methods + 1 consumer method, versions in {0,1,2,3}), bounded, not proved'])
 
@@ -126,7 +127,7 @@ P('C18', ['node-notifications', 'tick.election', 'msg.request_vote', 'msg.respon
   'has-quorum outcomes are independent of observers\' data (O18.2, proved by re-evaluating the rule with observers\' values havoc\'d); '
   'submissions through a non-leader are forwarded per C02.',
   '"Still converges to the same state" is liveness (C05-type) and not decided.',
-  assumptions=[])
+  assumptions=[], lemmas=['FRAME-C18'])
 
 P('C20', ['tick.leader', 'tick.not-leader', 'hasQuorum', 'msg.next_node_idx', 'sendAppendEntries', 'doChangeCluster'],
   'The leader block of _onTick keeps the leader role only if, at the clock value it reads, more than half of the voters (itself '
@@ -178,6 +179,70 @@ LEMMAS['FRAME-C04'] = _lemma_frame('C04', {
     '__raftLastApplied': ['__init__', '__applyLogEntries', '__loadDumpFile'],
     '__raftMatchIndex': ['__init__', '__onMessageReceived', '__onReadonlyNodeConnected', '__onReadonlyNodeDisconnected', '__onBecomeLeader',
                          '__doChangeCluster', '__updateClusterConfiguration'],
+})
+def _lemma_callers(prop, table):
+    """frame obligations on helper methods: the set of SyncObj methods that call the helper is exactly the set whose contracts cover the call"""
+    from pyvc import source
+    from contracts.so_common import self_calls
+
+    def run():
+        mod = source.load('pysyncobj/syncobj.py')
+        ci = mod.classes['SyncObj']
+        out = []
+        for helper, allowed in table.items():
+            callers = sorted(m for m, fn in ci.methods.items() if helper in self_calls(fn))
+            extra = [c for c in callers if c not in allowed]
+            out.append(dict(id='%s:frame.callers-of-%s-are-under-contract' % (prop, helper.strip('_')), unit='lemma.frame', path='ast',
+                            status='discharged' if not extra else 'failed', solver='ast-frame-analysis', secs=0.0,
+                            model={'callers': callers, 'uncontracted': extra}, info='callers=%s' % callers, line=None))
+        return out
+    return run
+
+
+LEMMAS['FRAME-C03'] = _lemma_frame('C03', {
+    '__raftCurrentTerm': ['__init__', '__onMessageReceived', '_onTick'],
+    '__votedForNodeId': ['__init__', '__onMessageReceived', '_onTick'],
+    '__votesCount': ['__init__', '__onMessageReceived', '_onTick'],
+    '__raftState': ['__init__', '__setState'],
+    '__noopIDx': ['__init__', '__onBecomeLeader'],
+})
+LEMMAS['CALLERS-C03'] = _lemma_callers('C03', {
+    '__setState': ['_onTick', '__onMessageReceived', '__onBecomeLeader'],
+    '__onBecomeLeader': ['_onTick', '__onMessageReceived'],
+})
+LEMMAS['FRAME-C01'] = _lemma_frame('C01', {
+    '__raftLog': ['__deleteEntriesFrom', '__deleteEntriesTo', '__init__', '__loadDumpFile', '__onBecomeLeader', '__onMessageReceived',
+                  '_checkCommandsToApply', '_onTick'],
+})
+LEMMAS['CALLERS-C01'] = _lemma_callers('C01', {
+    '__deleteEntriesFrom': ['__onMessageReceived'],
+    '__deleteEntriesTo': ['__tryLogCompaction', '__loadDumpFile'],
+    '__loadDumpFile': ['_onTick', '__onMessageReceived'],
+    '__doApplyCommand': ['__applyLogEntries'],
+})
+LEMMAS['FRAME-C10'] = _lemma_frame('C10', {
+    '__otherNodes': ['__doChangeCluster', '__init__', '__updateClusterConfiguration'],
+    '__changeClusterIDx': ['__changeCluster', '__init__', '_checkCommandsToApply'],
+    '__noopIDx': ['__init__', '__onBecomeLeader'],
+})
+LEMMAS['CALLERS-C10'] = _lemma_callers('C10', {
+    '__doChangeCluster': ['__changeCluster', '__doApplyCommand', '__onMessageReceived'],
+    '__updateClusterConfiguration': ['__loadDumpFile'],
+})
+LEMMAS['FRAME-C17'] = _lemma_frame('C17', {
+    '__enabledCodeVersion': ['__doApplyCommand', '__init__', '__setCodeVersion'],
+    '__currentVersionFuncNames': ['__init__', '__onSetCodeVersion'],
+    '__selfCodeVersion': ['__init__'],
+    '_idToMethod': ['__init__'],
+    '_methodToID': ['__init__'],
+})
+LEMMAS['CALLERS-C17'] = _lemma_callers('C17', {
+    '__onSetCodeVersion': ['__init__', '__doApplyCommand', '__loadDumpFile'],
+    '__setCodeVersion': [],
+})
+LEMMAS['FRAME-C18'] = _lemma_frame('C18', {
+    '__readonlyNodes': ['__init__', '__onReadonlyNodeConnected', '__onReadonlyNodeDisconnected'],
+    '__otherNodes': ['__doChangeCluster', '__init__', '__updateClusterConfiguration'],
 })
 LEMMAS['FRAME-C02'] = _lemma_frame('C02', {
     # request ids of forwarded commands must never be reused: the counter is only ever incremented, and only where an id is issued
